@@ -679,7 +679,9 @@ pub fn c15(ctx: &Ctx) -> Report {
             }
             let cfg = RibCfg { fs, softpot: t.0, dropper: t.1, pullup: t.2 };
             let b = cfg.boundary();
-            let levels: Vec<f32> = if fs == 100 { vec![0.4 * b, 1.0, b * 0.999, b * 1.001, 0.0] } else if fs == 334 { vec![0.4 * b, 1.0, b * 1.001, b * 0.999] } else { vec![0.4 * b, 1.0] };
+            // the single in-range level of the larger capacities differs per resistor triple: mid-range, a subnormal, near the boundary
+            let solo = [0.4 * b, 1.0e-40, 0.98 * b][ti];
+            let levels: Vec<f32> = if fs == 100 { vec![0.4 * b, 1.0, b * 0.999, b * 1.001, 0.0, 1.0e-40] } else if fs == 334 { vec![0.4 * b, 1.0, b * 1.001, b * 0.999] } else if fs == 500 { vec![0.4 * b, 1.0, f32::from_bits(1)] } else { vec![solo, 1.0] };
             let mp = if thorough && fs <= 2000 { 3 } else { 2 };
             with_capacity!(fs, explore_c, ctx, &mut rep, cfg, levels, false, false, mp, None, p, &format!("press detection at {} Hz, resistors {:?}", fs, t));
         }
